@@ -20,7 +20,6 @@
 #undef private
 #include "XmppSocket.h"
 #include "QXmppConstants_p.h"
-#include "QXmppUtils_p.h"
 #include "vp_harness.h"
 #include "vp_dom.h"
 
@@ -48,18 +47,12 @@ QXmppPacket *vp_c09_map_val(const void *map, unsigned i);
 // element copy/destroy of the container model = the real QXmppPacket copy constructor / destructor
 void vp_c09_pkt_copy(void *dst, const void *src) { new (dst) QXmppPacket(*static_cast<const QXmppPacket *>(src)); }
 void vp_c09_pkt_destroy(void *p) { static_cast<QXmppPacket *>(p)->~QXmppPacket(); }
-void vp_c09_classify(void *writer, QByteArray *out);      // K_ACK / K_REQ / K_OTHER block for the document written so far
 bool vp_c09_false();
+// serializeXml<SmAck>/<SmRequest> are overridden by models (models.c) that run the REAL toXml into the writer tree model; these
+// hooks make the real toXml functions part of the translated program without any function pointer in between
+void vp_c09_toxml_ack(const QXmpp::Private::SmAck *a, QXmlStreamWriter *w) { a->toXml(w); }
+void vp_c09_toxml_req(const QXmpp::Private::SmRequest *r, QXmlStreamWriter *w) { r->toXml(w); }
 }
-// QXmppUtils.cpp is not linked: serializeXml over the writer tree model (the REAL T::toXml runs; Qt's text encoding is trusted)
-QByteArray QXmpp::Private::serializeXml(const void *packet, void (*toXml)(const void *, QXmlStreamWriter *))
-{
-    VpWriter w;
-    toXml(packet, w.writer());
-    QByteArray out; vp_c09_classify(w.b, &out);
-    return out;
-}
-
 // the socket: XmppSocket::sendData is virtual; everything else of the socket is never touched by StreamAckManager
 struct FakeSock final : XmppSocket {
     FakeSock() : XmppSocket(nullptr) { }
@@ -84,7 +77,7 @@ struct World {
     std::optional<Task> t[VP_NMAX];
     World(int enabledMode /* 0 off, 1 on, 2 symbolic */)
     {
-        if (vp_c09_false()) { vp_c09_pkt_copy(nullptr, nullptr); vp_c09_pkt_destroy(nullptr); }   // keeps the element hooks of the map model in the translated program
+        if (vp_c09_false()) { vp_c09_pkt_copy(nullptr, nullptr); vp_c09_pkt_destroy(nullptr); vp_c09_toxml_ack(nullptr, nullptr); vp_c09_toxml_req(nullptr, nullptr); }   // keeps the element hooks of the map model in the translated program
         FakeSock *s = new (sockbuf.b) FakeSock();
         m = new (mgrbuf.b) StreamAckManager(*s);
         n = vp_u32(); lastOut = vp_u32(); lastIn = vp_u32();
@@ -123,8 +116,7 @@ struct World {
         for (unsigned i = 0; i < VP_NMAX; i++) {
             if (i < n) {
                 Rep r = report(*t[i]);
-                if (i < k) vp_assert(r == repFirst, "C09 covered/dropped stanza gets exactly the expected report");
-                else vp_assert(r == R_NONE, "C09 a stanza not covered by the handled-count is not reported");
+                vp_assert(r == (i < k ? repFirst : R_NONE), "C09 a stanza is reported exactly when covered by the handled-count (acknowledged) or dropped (error), otherwise not at all");
             }
         }
     }
